@@ -164,6 +164,20 @@ def run(chk, repo, tier):
         ok = ok and good
         det = f'basis call: ' + ', '.join(f'{k}={fmt(v)}' for k, v in b.items())
     chk.ob('C12-d', 'D-flow', ffit.key, 'pseudo-inverse of the vectorised basis of the same modes', ok, det, ffit.loc())
+    # one coefficient per requested mode, as a vector, also for a single mode: zernike_remove / zernike_compose contract it
+    # over its only axis
+    shape_bad = []
+    for p in rets:
+        a = p.ret.single_atom() if isinstance(p.ret, Poly) else None
+        if a is not None and a[0] == 'idx' and not isinstance(a[2], (nf.Slice, Tup)) and \
+                any(is_app(x, ('linalg.pinv', 'linalg.lstsq', 'einsum', 'dot', 'matmul')) for x in nf.value_atoms(Poly.atom(a[1]))):
+            shape_bad.append(f'returns the element {fmt(p.ret)[:80]} [{conds_str(p)[:60]}]')
+        elif a is not None and is_app(a, ('m:item', 'float', 'squeeze', 'm:squeeze', 'm:tolist')):
+            shape_bad.append(f'returns {fmt(p.ret)[:80]} [{conds_str(p)[:60]}]')
+    chk.ob('C12-d', 'U-shape', ffit.key, 'the coefficients come back as a vector with one entry per mode (a single mode included)',
+           (not shape_bad) if rets else None,
+           ('; '.join(shape_bad[:2]) + ': a 0-d result cannot be contracted with the (1, rows, cols) basis - zernike_remove(opd, mask, [k]) '
+            'raises') if shape_bad else 'every path returns the solution vector', ffit.loc())
     # the OPD is flattened in the order the basis is flattened in (C order): no order='K'/'F'/'A' anywhere in the module
     odd_order = []
     for fn_ in repo.all_functions():
